@@ -268,8 +268,8 @@ impl Check for C15 {
     }
     fn parts(&self, tier: Tier) -> Vec<Part> {
         vec![
-            Part { name: "structured", kind: PartKind::Random { cases: tier.pick(60_000, 600_000), main: 120, ops: 0, oplen: 0, sched: 0 } },
-            Part { name: "malformed", kind: PartKind::Random { cases: tier.pick(20_000, 200_000), main: 12, ops: 0, oplen: 0, sched: 0 } },
+            Part { name: "structured", kind: PartKind::Random { cases: tier.pick(600_000, 6_000_000), main: 120, ops: 0, oplen: 0, sched: 0 } },
+            Part { name: "malformed", kind: PartKind::Random { cases: tier.pick(200_000, 2_000_000), main: 12, ops: 0, oplen: 0, sched: 0 } },
             Part { name: "enum", kind: PartKind::Enum { units: 125 } },
         ]
     }
